@@ -8,13 +8,14 @@ import Driver.Notation
 import Driver.Indent
 import Driver.Print
 import Driver.Suppress
+import Driver.Splice
 import Driver.TreeIO
 import Driver.RuleIO
 
 open Lean Driver
 
 def allOps : List (String × Handler) :=
-  notationOps ++ indentOps ++ printOps ++ suppressOps
+  notationOps ++ indentOps ++ printOps ++ suppressOps ++ spliceOps
 
 /-- ops that read or extend the driver state (registered documents) -/
 def allStateOps : List (String × SHandler) :=
